@@ -8,7 +8,7 @@ the codec's own compressor and decompressor agree *when given the same dictionar
 import WuffsVerif.Proof.RacDict
 import WuffsVerif.Proof.RacRoundtripR
 import WuffsVerif.Proof.RacToyCodec
-namespace WuffsVerif.Rac.Dict
+namespace WuffsVerif.Rac.DictW
 open WuffsVerif.Rac
 
 def toErr : DErr → Err
@@ -229,4 +229,4 @@ theorem toyDict_notZeroes : ∀ a b rs out, toyDictCodecW.compress a b rs = .ok 
     rw [← h]; constructor <;> simp
   · simp at h
 
-end WuffsVerif.Rac.Dict
+end WuffsVerif.Rac.DictW
